@@ -330,5 +330,39 @@ def _construct_in_loop():
 PROGRAMS.update(_construct_in_loop())
 
 
+# ---- generated family: the same constant subscript inside two constructs (sibling or nested loops / branches): the 1-D int64
+# index constants a subscript needs must be defined in (or visible from) every graph that reads them -----------------------------
+def _shared_subscripts():
+    out = {}
+
+    def loop(kind, var, body, ind):
+        pad = "    " * ind
+        if kind == "for":
+            return [f"{pad}for {var} in range(n):"] + [f"{pad}    {l}" for l in body]
+        if kind == "while":
+            return [f"{pad}k{var} = n * 0", f"{pad}w{var} = k{var} < n", f"{pad}while w{var}:"] + [f"{pad}    {l}" for l in body] + \
+                   [f"{pad}    k{var} = k{var} + 1", f"{pad}    w{var} = k{var} < n"]
+        return [f"{pad}c{var} = n > 1", f"{pad}if c{var}:"] + [f"{pad}    {l}" for l in body] + [f"{pad}else:", f"{pad}    acc = acc + 1"]
+
+    for first in ("for", "while", "if"):
+        for second in ("for", "while", "if"):
+            for nested in (False, True):
+                use1 = "acc = acc + op.Squeeze(v[1:2])"
+                use2 = "acc = acc * 2 + op.Squeeze(v[1:2]) + op.Squeeze(v[0:1])"
+                if nested:
+                    inner = loop(second, "j", [use2], 0)
+                    lines = loop(first, "i", inner + [use1], 0)
+                else:
+                    lines = loop(first, "i", [use1], 0) + loop(second, "j", [use2], 0)
+                name = f"gen_subscript_{first}_{'in' if nested else 'then'}_{second}"
+                out[name] = ("\n@script(default_opset=op)\ndef f(v: INT64[3], n: INT64) -> INT64:\n    acc = n * 1\n"
+                             + "".join("    " + l + "\n" for l in lines) + "    return acc\n"
+                             + "INPUTS = [dict(v=np.array([5, 7, 11], dtype=np.int64), n=np.array(n, dtype=np.int64)) for n in (0, 1, 2)]\n")
+    return out
+
+
+PROGRAMS.update(_shared_subscripts())
+
+
 def sources():
     return {name: HEADER + body for name, body in PROGRAMS.items()}
